@@ -158,3 +158,44 @@ def algo_validate(a):
 
 
 HANDLERS.update({"bban.nat": bban_nat, "algo.validate": algo_validate})
+
+
+# ---------------------------------------------------------------- generation
+def iban_generate(a):
+    kw = {}
+    if "branch" in a and a.get("pass_branch", True):
+        kw["branch_code"] = T(a["branch"])
+    o = IBAN.generate(T(a["cc"]), bank_code=T(a["bank"]), account_code=T(a["acct"]), **kw)
+    return {"val": C(str(o)), "cls": type(o).__name__}
+
+
+def bban_from_components(a):
+    o = BBAN.from_components(T(a["cc"]), bank_code=T(a["bank"]), branch_code=T(a["branch"]),
+                             account_code=T(a["acct"]))
+    return {"val": C(str(o)), "cls": type(o).__name__, "cc": C(o.country_code)}
+
+
+COMPONENTS = ["account_id", "account_type", "account_code", "account_holder_id",
+              "currency_code", "bank_code", "branch_code", "national_checksum_digits"]
+
+
+def iban_rebuild(a):
+    o = IBAN(T(a["t"]), allow_invalid=True)
+    comps = {n: getattr(o, n) for n in COMPONENTS}
+    r = BBAN.from_components(o.country_code, **comps)
+    return {"rebuilt": C(str(r)), "comps": {n: C(v) for n, v in comps.items()}}
+
+
+HANDLERS.update({"iban.generate": iban_generate, "bban.from_components": bban_from_components,
+                 "iban.rebuild": iban_rebuild})
+
+
+def iban_random(a):
+    import random as _r
+    kw = {k: T(v) for k, v in a.get("values", {}).items()}
+    o = IBAN.random(T(a.get("country", [])), random=_r.Random(a["seed"]), use_registry=a.get("use_registry", True),
+                    **kw)
+    return {"val": C(str(o)), "cls": type(o).__name__}
+
+
+HANDLERS.update({"iban.random": iban_random})
